@@ -927,8 +927,14 @@ Y_BYTES = {'utf-8': [b'y', b'Z', b'\t', b'\x00', u'\xe9'.encode('utf-8'), u'€'
 def concretize(rng, syms, enc, form):
     """-> list of per-symbol str or bytes"""
     out = []
-    for s in syms:
-        if s == 'y':
+    for i, s in enumerate(syms):
+        if s == 'y' and i and syms[i - 1] == 'y' and (form == 'str' or enc == 'utf-8') and rng.random() < 0.5:
+            # two printable characters in a row: a base letter and a combining mark (decomposed text, conjoining jamo) -
+            # two characters, two cells, wherever the input is cut
+            base, mark = rng.choice([(u'e', u'\u0301'), (u'u', u'\u0308'), (u'\u1100', u'\u1161')])
+            out[-1] = base if form == 'str' else base.encode('utf-8')
+            out.append(mark if form == 'str' else mark.encode('utf-8'))
+        elif s == 'y':
             out.append(rng.choice(Y_BYTES[enc]) if form == 'bytes' else rng.choice(
                 [c for c in Y_STR if enc is None or form == 'str']))
         else:
@@ -1914,6 +1920,12 @@ def run_c18(ctx):
         rng = random.Random(ctx.seed * 32452843 + k)
         R, C = rng.choice([(2, 2), (2, 3), (3, 4), (1, 3), (3, 1), (4, 5)])
         inputs.append((R, C, random_input(rng, R, C, rng.randint(1, 3))))
+    for k in range(40 if quick else 400):
+        rng = random.Random(ctx.seed * 7919 + k)
+        R, C = rng.choice([(2, 3), (3, 4), (1, 3), (4, 5)])
+        base = random_input(rng, R, C, rng.randint(1, 2))
+        pos = rng.randint(0, len(base))
+        inputs.append((R, C, base[:pos] + ['y', 'y'] + (['y', 'y'] if rng.random() < 0.4 else []) + base[pos:]))
     ch = pool_map_traces(_chunk_worker, len(inputs), {'inputs': inputs, 'cwd': ctx.work, 'seed': ctx.seed,
                                                       'limit': 250 if quick else 600})
     total.merge(ch)
